@@ -4,6 +4,7 @@ import ast
 import asyncio
 import builtins
 from collections import OrderedDict
+import copy
 import functools
 import importlib
 import inspect
@@ -854,10 +855,12 @@ class EvalFuncVar:
         """Return the EvalFunc function."""
         return self.func
 
-    def remove_func(self):
-        """Remove and return the EvalFunc function."""
-        func = self.func
-        self.func = None
+    def copy_func(self):
+        """Return an independent copy of the EvalFunc function (same code and closure, no triggers)."""
+        func = copy.copy(self.func)
+        func.trigger = []
+        func.trigger_service = set()
+        func.trigger_last_time = None
         return func
 
     async def call(self, ast_ctx, /, *args, **kwargs):
@@ -1208,9 +1211,12 @@ class AstEval:
             for dec_func in dec_other:
                 func = await self.call_func(dec_func, None, func)
                 if isinstance(func, EvalFuncVar):
-                    # set the function name back to its original instead of the decorator function we just called
+                    # the decorator returned a pyscript function: usually a wrapper it has just defined, but
+                    # it can be any function (eg, one defined at the top level of the decorator's file, that
+                    # other code still calls). So leave that one as it is and continue with a copy, with the
+                    # function name set back to its original instead of the decorator function we just called
+                    func = func.copy_func()
                     func.set_name(name)
-                    func = func.remove_func()
                     dec_trig += func.decorators
                     dec_dm += func.dm_decorators
                 elif isinstance(func, EvalFunc):
